@@ -199,6 +199,11 @@ func (publisher *Publisher) Places() map[string]*place {
 			key := alnumOrDashRegexp.
 				ReplaceAllString(strings.ToLower(prettyName), "-")
 
+			// A place called "Places" must not replace the list of places.
+			if isReservedPageKey(key) {
+				key += "-place"
+			}
+
 			if _, ok := publisher.placesMap[key]; !ok {
 				country := placeTag.Country()
 				if country == "" {
